@@ -1064,7 +1064,37 @@ func (e *Engine) step(s *State, f *Frame, ins ssa.Instruction) (forks []*State, 
 	case *ssa.Select:
 		return e.selectStmt(s, f, x)
 	case *ssa.SliceToArrayPointer:
-		panic(engErr("slice to array pointer"))
+		// (*[N]byte)(s) / [N]byte(s) of a byte slice: panics if len(s) < N. The result points at a
+		// copy of the first N bytes (conversions to an array value dereference it at once; aliasing
+		// through the pointer form is not modelled)
+		at, _ := deref(x.Type()).Underlying().(*types.Array)
+		b, isB := e.val(f, x.X).(BSl)
+		if at == nil || !isB {
+			panic(engErr("slice to array pointer (non-byte slice)"))
+		}
+		n := int(at.Len())
+		if b.Nil {
+			if n > 0 {
+				e.violation(s, "slice", e.site(x)+": conversion of a nil slice to an array of length > 0")
+				panic(abortPath{})
+			}
+			f.Env[x] = Ptr{Obj: s.alloc(BA{A: ZeroMem, N: 0})}
+			return nil, false
+		}
+		bad := Ult(b.Len, Idx(n))
+		if !e.oblige(s, bad, "slice", e.site(x)+": conversion of a slice to an array longer than the slice") {
+			if !e.feasible(s, Not(bad)) {
+				panic(abortPath{})
+			}
+		}
+		e.addPC(s, Not(bad))
+		src := s.load(b.Loc).(BA).A
+		arr := ZeroMem
+		for i := 0; i < n; i++ {
+			arr = Store(arr, Idx(i), Select(src, Add(b.Off, Idx(i))))
+		}
+		f.Env[x] = Ptr{Obj: s.alloc(BA{A: arr, N: n})}
+		return nil, false
 	default:
 		panic(engErr(fmt.Sprintf("unsupported instruction %T: %s", ins, ins)))
 	}
